@@ -49,13 +49,17 @@ def run(res: C.Result):
         if "exception" in r:
             res.fail(f"exception:{p['ensemble']}:{p['calc']}", f"simulation raised {r['exception']}: {r['message'][:200]}", {"input": p, "observed": {x: r[x] for x in ("exception", "message", "trace")}})
             continue
-        toks = {}
+        toks, ntok = {}, [0]
 
-        def tk(g):
-            return toks.setdefault(g, len(toks) + 1)
+        def tk(g, fresh=False):
+            if fresh or g not in toks:
+                ntok[0] += 1
+                toks[g] = ntok[0]
+            return toks[g]
         counting = p["calc"] in ("caching", "internal")
         os_, first = [], True
         g0 = r["trials"][0]["pre"]["geom12"] if r["trials"] else None
+        t0 = tk(g0)       # the initial configuration's token is fixed before any re-pointing
         for ti, t in enumerate(r["trials"]):
             dist["trials"] += 1
             oc = t["outcome"]
@@ -80,6 +84,14 @@ def run(res: C.Result):
                 reached = t["at_eval"] is not None
                 changed = reached and t["at_eval"]["geom12"] != t["pre"]["geom12"]
                 want = 1 if changed else 0
+                # a change below 1e-12 but above ASE's own tolerance (1e-15, e.g. the "rotation" of a one-atom group): ASE may or may not see it;
+                # the property allows the one evaluation of a trial that reached its criteria, and none is needed either
+                ambiguous = reached and not changed and t["at_eval"].get("geom") != t["pre"].get("geom")
+                if ambiguous and spent in (0, 1):
+                    dist["sub_tolerance_changes"] = dist.get("sub_tolerance_changes", 0) + 1
+                    want = spent
+                    if spent == 1:
+                        tk(t["at_eval"]["geom12"], fresh=True)     # ASE saw a new configuration: the model gets a new token for it
                 # (the initial reference energy is computed in validate_simulation, before the first trial's snapshot)
                 if spent != want:
                     why.append(("evaluation-count", f"{spent} energy evaluations in a trial that {'reached' if reached else 'did not reach'} its criteria (expected {want})"))
@@ -94,7 +106,7 @@ def run(res: C.Result):
                 os_.append(f"{'Accepted' if oc else 'Rejected'} {tk(t['at_eval']['geom12'])}")
         if counting and p["ensemble"] != "hamiltonian" and r["trials"]:
             dist["count_checked_programs"] += 1
-            s0 = f"(validate nat nat S Nat.eqb (Build_cst {tk(g0)} None None {tk(g0)} None None 0))"
+            s0 = f"(validate nat nat S Nat.eqb (Build_cst {t0} None None {t0} None None 0))"
             # tokens must be assigned before use: g0 first
             items.append(f"show (run nat nat S Nat.eqb [{'; '.join(os_)}] {s0})")
             last = r["trials"][-1]
